@@ -11,7 +11,7 @@ from fractions import Fraction as F
 from . import build, proto, core, gen, translate, solvelib, lpfam, hist, histrun
 
 OBL = [("Qsx.Props.C06", t) for t in ["Qsx.Props.C06.step_total", "Qsx.Props.C06.err_unchanged", "Qsx.Props.C06.symtab_history",
-                                      "Qsx.Props.C06.symtab_lookup_history"]]
+                                      "Qsx.Props.C06.symtab_lookup_history", "Qsx.Props.C06.symtab_getindex_after_reset"]]
 
 
 STORE_W = {"addcol": 20, "newcol": 3, "addrow": 25, "addrrow": 8, "newrow": 3, "delrow": 3, "delrows": 3, "delsetrows": 2, "delcol": 3, "delcols": 3,
